@@ -70,3 +70,26 @@ Theorem C08_unchanged_refresh_no_commit :
     forall n, patch_commit w' n = patch_commit w n.
 Proof. exact unchanged_refresh_no_commit. Qed.
 Print Assumptions C08_unchanged_refresh_no_commit.
+
+(* `stg edit -m <msg>`: an editing command changes only what the user asked to change - every
+   patch keeps its identity, except that the patches re-created by the command may carry the
+   identity that was asked for (only the named patch does: the others copy their own) *)
+Theorem C08_edit_changes_only_named :
+  forall lower_s, LowerOK lower_s ->
+  forall w loc meta msg w' x n o',
+    Inv w -> step lower_s w (CEdit loc meta msg) = (w', x) -> patch_commit w' n = Some o' ->
+    exists o, patch_commit w n = Some o
+      /\ (ident_of (w_objs w') o' = ident_of (w_objs w) o \/ ident_of (w_objs w') o' = Some (meta, msg)).
+Proof. exact edit_changes_only_named. Qed.
+Print Assumptions C08_edit_changes_only_named.
+
+(* an edit that changes nothing creates no commit, runs no transaction and records nothing:
+   the command returns the world it opened *)
+Theorem C08_unchanged_edit_is_noop :
+  forall lower_s w op meta msg pn pc,
+    open_stack PAllow w = Some op -> head_top_ok op = true ->
+    last_error (s_applied (op_state op)) = Some pn -> pm_get (s_patches (op_state op)) pn = Some pc ->
+    ident_of (w_objs (op_world op)) pc = Some (meta, msg) ->
+    step lower_s w (CEdit None meta msg) = (op_world op, X0).
+Proof. exact unchanged_edit_is_noop. Qed.
+Print Assumptions C08_unchanged_edit_is_noop.
